@@ -386,4 +386,8 @@ def gen_project(seed, index, prof=None):
     rng = random.Random(seed * 1000003 + index)
     from . import shapes
     prof = prof or DEFAULT_PROFILE
-    return shapes.apply(Gen(rng, prof).project(), prof, seed, index)
+    p = shapes.apply(Gen(rng, prof).project(), prof, seed, index)
+    # a third of the runs also write the info export (own PRNG stream: the project of a (seed, index) stays what it was)
+    if random.Random(seed * 104729 + index * 7 + 3).random() < prof.get("p_info_export", 0.34):
+        p.setdefault("args", {})["info_export"] = True
+    return p
